@@ -4,6 +4,7 @@ import itertools
 import numpy as np
 
 from .. import core, symbols
+from ..translate import spectrum as tr_spectrum
 
 ID = "C17"
 PROPS_FILE = "C17"
@@ -11,7 +12,14 @@ RULE = ("correspondence: ex.get_spectrum (power/amplitude x sum/average binning)
         "(exact rationals on the float magnitudes), D = 1, 2, 3, odd/even N; bin membership of EVERY stored wavenumber vector vs the integer criterion; "
         "witness: a cos(k.x + phase) for every wavenumber vector of the grid contributes amplitude a to bin round(|k|) and nothing elsewhere; summed power = half the mean square of the part of the "
         "state inside the Nyquist sphere (full Parseval in 1D); average = sum / count; channels independent. Non-trivial: non-zero states; distinct by input hash.")
+TRUSTED_EXTRA = ["harness/translate/spectrum.py (get_spectrum: structure compared as text, per-mode quantity, scaling modes and bin limits translated)"]
 ASSUMPTIONS = ["|k| is compared with b +- 1/2 in floating point by the code; C17_bin_margin shows the comparison cannot sit on a boundary", "rfftn of C04"]
+
+
+def translate(ctx):
+    """Gen/SpectrumGen.v: what decides the values of get_spectrum, re-translated from the source (theorem
+    C17_code_quantity_and_bins_are_model); on failure the file is replaced by a stub"""
+    tr_spectrum.run()
 
 
 def _ex():
